@@ -50,6 +50,9 @@ type c03World struct {
 	lastConn, lastHandoff []byte
 	pressure              bool
 	failed                bool
+	cpu                   uint32  // simulated CPU the next frame runs on
+	cpuUsed               [4]bool // CPUs that ran a frame since the last Reset (their per-CPU scratch is no longer all zero)
+	connCap               uint32  // conn_state_map capacity of this program
 }
 
 var c03ModeNames = [3]string{"kernel-pull", "force-fast", "force-slow"}
@@ -214,6 +217,19 @@ func (w *c03World) setCookie(cookie uint64, pid uint32, pname string) {
 	w.cookies[cookie] = c03Cookie{pid, pname}
 }
 
+// setCPU moves the following frames to another simulated CPU: per-CPU array maps (the
+// programs' scratch areas) keep one copy per CPU, exactly as in the kernel.
+func (w *c03World) setCPU(c uint32) {
+	if c == w.cpu {
+		return
+	}
+	w.cpu = c
+	for _, k := range w.ks {
+		k.QSetCPU(c)
+	}
+	w.log("CPU -> %d", c)
+}
+
 func (w *c03World) advance(ns uint64) {
 	w.now += ns
 	for _, k := range w.ks {
@@ -270,6 +286,7 @@ func (w *c03World) run(st *c03Step) (res [3]vk.PktRes, ok bool) {
 	if w.anyDead() {
 		return res, false
 	}
+	w.cpuUsed[w.cpu&3] = true
 	w.m.Eval(1)
 	// (g) no verdict depends on the header parsing path
 	for i := 1; i < 3; i++ {
@@ -395,6 +412,7 @@ type c03Expect struct {
 	mark   uint32
 	rec    *bpfRoutingResult
 	why    string
+	kind   string // rule outcome: plain_direct, direct_mark, group, group_down, block, dns, dae_own, wan_origin
 }
 
 func (w *c03World) verdict(dec vk.RDecision, f *vk.Frame, wan bool, cookie uint64) c03Expect {
@@ -417,33 +435,36 @@ func (w *c03World) verdict(dec vk.RDecision, f *vk.Frame, wan bool, cookie uint6
 	if dns && !dec.Must {
 		rec.Outbound = uint8(consts.OutboundControlPlaneRouting)
 		rec.Must = 0
-		e.class, e.rec, e.why = "redirect", rec, "port-53 not covered by must => control plane"
+		e.class, e.rec, e.why, e.kind = "redirect", rec, "port-53 not covered by must => control plane", "dns"
 		return e
 	}
 	switch dec.Outbound {
 	case "direct":
 		if wan && dec.Mark != 0 {
 			rec.Outbound = uint8(consts.OutboundDirect)
-			e.class, e.rec, e.why = "redirect", rec, "locally originated direct traffic needing a mark is handed to dae"
+			e.class, e.rec, e.why, e.kind = "redirect", rec, "locally originated direct traffic needing a mark is handed to dae", "direct_mark"
 			return e
 		}
-		e.class, e.why = "ok", "direct"
+		e.class, e.why, e.kind = "ok", "direct", "plain_direct"
 		if !wan {
 			e.markOK, e.mark = true, dec.Mark
+			if dec.Mark != 0 {
+				e.kind = "direct_mark"
+			}
 		}
 		return e
 	case "block":
-		e.class, e.why = "shot", "block"
+		e.class, e.why, e.kind = "shot", "block", "block"
 		return e
 	}
 	id := name2id[dec.Outbound]
 	rec.Outbound = id
 	key := outboundConnectivityMapKey(id, c03NetworkType(f.Proto == 17, f.V6()))
 	if w.dead[key] && !dns {
-		e.class, e.why = "shot", fmt.Sprintf("group %s health bit down (key %d)", dec.Outbound, key)
+		e.class, e.why, e.kind = "shot", fmt.Sprintf("group %s health bit down (key %d)", dec.Outbound, key), "group_down"
 		return e
 	}
-	e.class, e.rec, e.why = "redirect", rec, "proxy group "+dec.Outbound
+	e.class, e.rec, e.why, e.kind = "redirect", rec, "proxy group "+dec.Outbound, "group"
 	return e
 }
 
@@ -469,7 +490,7 @@ func (w *c03World) model(st *c03Step) c03Expect {
 			return c03Expect{} // forwarded traffic on the WAN hook: not covered by the statement
 		}
 		if wan && (f.Proto == 17 || newSyn) && w.isDaeOwn(st) {
-			return c03Expect{judge: true, class: "ok", why: "sent by dae itself"}
+			return c03Expect{judge: true, class: "ok", why: "sent by dae itself", kind: "dae_own"}
 		}
 		if tcp {
 			if !newSyn {
@@ -482,7 +503,7 @@ func (w *c03World) model(st *c03Step) c03Expect {
 					fs.closing = true
 				}
 				if fs.wanOrigin {
-					return c03Expect{judge: true, class: "ok", why: "reply of a WAN-originated connection"}
+					return c03Expect{judge: true, class: "ok", why: "reply of a WAN-originated connection", kind: "wan_origin"}
 				}
 				if !fs.hasDec {
 					return c03Expect{}
@@ -502,7 +523,7 @@ func (w *c03World) model(st *c03Step) c03Expect {
 		if fs != nil {
 			fs.last = w.now
 			if fs.wanOrigin {
-				return c03Expect{judge: true, class: "ok", why: "reply of a WAN-originated flow"}
+				return c03Expect{judge: true, class: "ok", why: "reply of a WAN-originated flow", kind: "wan_origin"}
 			}
 			if fs.hasDec {
 				e := w.verdict(fs.dec, f, wan, st.cookie)
@@ -550,9 +571,24 @@ func (w *c03World) check(st *c03Step, e c03Expect, res *vk.PktRes) {
 		return
 	}
 	w.m.Count("verdict_"+e.class, 1)
-	hookName := map[uint8]string{vk.HookLanIngressL2: "lan_ingress", vk.HookWanEgressL2: "wan_egress"}[st.hook]
+	hookName := c03HookName(st.hook)
 	w.m.Distinct(fmt.Sprintf("%s|%s|%s|%s", hookName, c03FrameClass(&st.f), e.class, strings.SplitN(e.why, ":", 2)[0]))
-	bad := ""
+	bad, src := w.eval(st, e, res)
+	if src != "" {
+		w.m.Count("records_recovered_from_"+src, 1)
+	}
+	if bad != "" {
+		w.violation("verdict/"+hookName+"/"+e.class+"/"+strings.SplitN(e.why, ":", 2)[0], bad)
+	}
+}
+
+func c03HookName(hook uint8) string {
+	return map[uint8]string{vk.HookLanIngressL2: "lan_ingress", vk.HookWanEgressL2: "wan_egress"}[hook]
+}
+
+// eval compares what the program did with a frame against the expectation; "" = as expected.
+// src names the map the control plane recovered the record from (redirects only).
+func (w *c03World) eval(st *c03Step, e c03Expect, res *vk.PktRes) (bad, src string) {
 	switch e.class {
 	case "ok":
 		if res.Rc != c03ActOK || res.Redirected != 0 {
@@ -571,17 +607,15 @@ func (w *c03World) check(st *c03Step, e c03Expect, res *vk.PktRes) {
 			bad = fmt.Sprintf("expected redirect to dae0 (ifindex %d) because %s; got rc=%d redirected=%d ifindex=%d", c03Dae0Ifindex, e.why, res.Rc, res.Redirected, res.RedirIf)
 		} else if res.Cb0 != consts.TproxyMark {
 			bad = fmt.Sprintf("redirected frame lacks the tproxy cb mark: cb[0]=%#x", res.Cb0)
-		} else if got, src, err := w.retrieve(&st.f); err != nil {
+		} else if got, from, err := w.retrieve(&st.f); err != nil {
 			bad = "control plane cannot recover the routing record: " + err.Error()
 		} else if *got != *e.rec {
-			bad = fmt.Sprintf("record recovered by the control plane (%s) %+v != kernel decision %+v", src, *got, *e.rec)
+			bad = fmt.Sprintf("record recovered by the control plane (%s) %+v != kernel decision %+v", from, *got, *e.rec)
 		} else {
-			w.m.Count("records_recovered_from_"+src, 1)
+			src = from
 		}
 	}
-	if bad != "" {
-		w.violation("verdict/"+hookName+"/"+e.class+"/"+strings.SplitN(e.why, ":", 2)[0], bad)
-	}
+	return bad, src
 }
 
 // retrieve mirrors controlPlaneCore.RetrieveRoutingResult on kernsim's map bytes:
@@ -890,6 +924,20 @@ func (w *c03World) history() {
 			return
 		}
 		w.m.Count("udp_redecided_after_idle", 1)
+		if r.IntN(2) == 0 {
+			// after another idle period the same 5-tuple is used by a flow opened from the OTHER
+			// side: nothing of the expired flow (direction, decision, MAC, process) may survive
+			w.advance([]uint64{125e9, 300e9}[r.IntN(2)])
+			if !w.step(mk(vk.HookWanIngressL2, rev(f))) {
+				return
+			}
+			maybeChange()
+			gap()
+			if !w.step(mk(fwdHook, f)) {
+				return
+			}
+			w.m.Count("opener_swapped_after_expiry", 1)
+		}
 	default: // connection opened from the WAN side towards a local/LAN service; replies must pass
 		in := rev(f) // as seen on wan ingress: remote -> local
 		first := in
@@ -936,10 +984,407 @@ func (w *c03World) history() {
 			}
 			w.m.Count("wan_origin_reply_probes", 1)
 		}
+		if r.IntN(2) == 0 {
+			// the tuple is re-used, after the idle timeout, by a flow opened from the local side
+			w.advance([]uint64{125e9, 300e9}[r.IntN(2)])
+			maybeChange()
+			first := f
+			first.Syn = f.Proto == 6
+			if !w.step(mk(replyHook, first)) {
+				return
+			}
+			w.m.Count("opener_swapped_after_expiry", 1)
+		}
 	}
 	if w.m.WantSample() {
 		w.m.Sample(map[string]any{"history": append([]string(nil), w.hist...)})
 	}
+}
+
+// ---- interleaved multi-flow histories and conn-state exhaustion -----------------------
+//
+// Every flow's frames are judged against the decision for THAT flow only (reference flow
+// table keyed by 5-tuple), whatever other flows' frames ran in between on the same or on
+// another CPU, and whatever the health bits of the other family / protocol say.
+
+type c03MFlow struct {
+	f       vk.Frame
+	hook    uint8
+	cookie  uint64
+	mark    uint32
+	started bool
+	done    bool
+	tracked bool // exhaustion histories: a conn_state entry existed after the first packet
+}
+
+var c03NonZeroMarks = []string{"1", "0x800", "255", "0x80000000", "0xffffffff", "010"}
+
+// loadPalette loads a program in which every rule outcome named by the statement (plain
+// direct, direct with a mark, proxy group with and without mark, block, must) is selected by
+// one of the destination ports the flows use, so that a history meets all of them.
+func (w *c03World) loadPalette() bool {
+	r := w.r
+	g := func() string { return verifGroups[r.IntN(len(verifGroups))] }
+	mk := func() string { return c03NonZeroMarks[r.IntN(len(c03NonZeroMarks))] }
+	outs := []vk.ROut{
+		{Name: "direct"},
+		{Name: "direct", HasMark: true, MarkTxt: mk()},
+		{Name: g()},
+		{Name: g(), HasMark: true, MarkTxt: mk()},
+		{Name: "block"},
+		{Name: []string{"must_direct", "must_" + g(), "direct", g()}[r.IntN(4)], MustPar: r.IntN(2) == 0},
+		{Name: "direct", HasMark: true, MarkTxt: mk(), MustPar: r.IntN(3) == 0},
+	}
+	r.Shuffle(len(outs), func(i, j int) { outs[i], outs[j] = outs[j], outs[i] })
+	p := &vk.RProg{Fallback: outs[len(outs)-1]}
+	for i, dp := range []string{"80", "443", "8443", "1", "53", "8080"} {
+		rl := vk.RRule{Conds: []vk.RCond{{Func: "dport", Params: []vk.RParam{{Val: dp}}}}, Out: outs[i]}
+		switch r.IntN(5) {
+		case 0: // the outcome differs by protocol
+			rl.Conds = append(rl.Conds, vk.RCond{Func: "l4proto", Params: []vk.RParam{{Val: []string{"tcp", "udp"}[r.IntN(2)]}}})
+		case 1: // ... or by family
+			rl.Conds = append(rl.Conds, vk.RCond{Func: "ipversion", Params: []vk.RParam{{Val: []string{"4", "6"}[r.IntN(2)]}}})
+		}
+		p.Rules = append(p.Rules, rl)
+	}
+	if !w.loadRules(p) {
+		return false
+	}
+	w.m.Count("palette_programs", 1)
+	return true
+}
+
+// asymHealth gives every group health bits that differ between IPv4 and IPv6 (two times out
+// of three) independently per protocol.
+func (w *c03World) asymHealth() {
+	name2id, _ := verifOutboundTable()
+	for _, g := range verifGroups {
+		for _, udp := range []bool{false, true} {
+			a := w.r.IntN(2) == 0
+			b := a
+			if w.r.IntN(3) != 0 {
+				b = !a
+			}
+			w.setAlive(name2id[g], udp, false, a)
+			w.setAlive(name2id[g], udp, true, b)
+		}
+	}
+	w.m.Count("asymmetric_health_setups", 1)
+}
+
+func (w *c03World) newMFlow(i int, v6, tcp, wan bool) c03MFlow {
+	r := w.r
+	src, dst := w.pickAddrs(v6)
+	f := vk.Frame{L2: r.IntN(4) != 0, Src: src, Dst: dst, Dscp: []uint8{0, 4, 8, 63}[r.IntN(4)],
+		Sport: uint16(20000 + 16*i + r.IntN(16)), Dport: []uint16{80, 443, 8443, 1, 8080, 53}[r.IntN(6)]}
+	f.SrcMac = [][6]byte{{2, 0x42, 0xac, 0x11, 0, 2}, {2, 0x42, 0xac, 0x11, 0, 3}, {0, 0, 0, 0, 0, 1}}[r.IntN(3)]
+	f.DstMac = [6]byte{2, 0, 0, 0, 0, 1}
+	f.Proto = 17
+	if tcp {
+		f.Proto = 6
+	}
+	if !v6 && r.IntN(6) == 0 {
+		f.IHL = uint8(6 + r.IntN(10))
+	}
+	if v6 && r.IntN(5) == 0 {
+		f.Ext = append(f.Ext, vk.ExtHdr{Type: []uint8{0, 43, 60}[r.IntN(3)], Len8: uint8(r.IntN(3))})
+	}
+	f.Payload = []int{0, 1, 100}[r.IntN(3)]
+	if _, ok := w.domains[dst]; !ok || r.IntN(2) == 0 {
+		w.domains[dst] = []string{"", "example.com", "www.example.org", "a.b.example.com"}[r.IntN(4)]
+		w.log("DOMAIN %v -> %q", dst, w.domains[dst])
+	}
+	fl := c03MFlow{f: f, hook: vk.HookLanIngressL2}
+	if wan {
+		fl.hook = vk.HookWanEgressL2
+		fl.cookie = uint64(110 + i)
+		switch r.IntN(6) {
+		case 0:
+			fl.cookie = uint64(900 + i) // no mapping known
+		case 1: // a flow of dae itself: passes, but its frames run through the same hook (and scratch)
+			if w.sockMark != 0 && r.IntN(2) == 0 {
+				fl.cookie, fl.mark = uint64(900+i), w.sockMark
+			} else {
+				w.setCookie(fl.cookie, c03DaePid, "dae")
+			}
+			w.m.Count("mflow_dae_own_flows", 1)
+		default:
+			w.setCookie(fl.cookie, uint32(1000+r.IntN(9)), vk.PoolPnames[r.IntN(len(vk.PoolPnames))])
+		}
+	}
+	return fl
+}
+
+// mflowStep builds the next frame of a flow: SYN / first datagram, then ACKs / datagrams.
+func (w *c03World) mflowStep(fl *c03MFlow, restart, fin bool) *c03Step {
+	fr := fl.f
+	if fr.Proto == 6 {
+		switch {
+		case !fl.started || restart:
+			fr.Syn = true
+		case fin:
+			fr.Ack = true
+			if w.r.IntN(2) == 0 {
+				fr.Fin = true
+			} else {
+				fr.Rst = true
+			}
+		default:
+			fr.Ack = true
+		}
+	}
+	return &c03Step{hook: fl.hook, f: fr, cookie: fl.cookie, mark: fl.mark}
+}
+
+func (w *c03World) mflows(n int, wanBias int) []c03MFlow {
+	r := w.r
+	flows := make([]c03MFlow, n)
+	v6first := r.IntN(2) == 0
+	for i := range flows {
+		v6 := (i%2 == 0) == v6first // both families are present in every history
+		if r.IntN(5) == 0 {
+			v6 = !v6
+		}
+		flows[i] = w.newMFlow(i, v6, r.IntN(3) != 0, r.IntN(10) < wanBias)
+	}
+	w.installDomains()
+	return flows
+}
+
+func (w *c03World) mixHistory() {
+	r := w.r
+	w.flows = map[string]*c03Flow{}
+	w.hist = w.hist[:0]
+	w.advance(400e9)
+	if r.IntN(3) == 0 {
+		w.loadPalette()
+	}
+	w.log("RULES:\n%s", w.prog.Text())
+	w.asymHealth()
+	flows := w.mflows(2+r.IntN(3), 7)
+	prev := -1
+	var prevFam uint8
+	for s, steps := 0, 5+r.IntN(8); s < steps; s++ {
+		i := r.IntN(len(flows))
+		fl := &flows[i]
+		if fl.done {
+			continue
+		}
+		switch r.IntN(12) {
+		case 0, 1, 2:
+			name2id, _ := verifOutboundTable()
+			w.setAlive(name2id[verifGroups[r.IntN(len(verifGroups))]], r.IntN(3) == 0, r.IntN(2) == 0, r.IntN(2) == 0)
+			w.m.Count("alive_flips", 1)
+		case 3:
+			w.worldChange()
+		}
+		w.advance([]uint64{0, 3e8, 2e9}[r.IntN(3)])
+		later := fl.started
+		// CPU placement: stay, move to another used CPU, or (for a later packet) to a CPU that
+		// has not run anything yet, whose scratch areas are still all zero
+		freshCPU := false
+		switch r.IntN(4) {
+		case 0:
+			w.setCPU(uint32(r.IntN(3)))
+		case 1:
+			if later {
+				for c := uint32(0); c < 4; c++ {
+					if !w.cpuUsed[c] {
+						w.setCPU(c)
+						freshCPU = true
+						break
+					}
+				}
+			}
+		}
+		if fl.started && r.IntN(6) == 0 { // a packet of the peer (not judged; refreshes tracking)
+			rv := fl.f
+			rv.Src, rv.Dst, rv.Sport, rv.Dport = fl.f.Dst, fl.f.Src, fl.f.Dport, fl.f.Sport
+			rv.SrcMac, rv.DstMac = fl.f.DstMac, fl.f.SrcMac
+			rv.Ack = rv.Proto == 6
+			if !w.step(&c03Step{hook: vk.HookWanIngressL2, f: rv}) {
+				return
+			}
+		}
+		restart := later && fl.f.Proto == 6 && r.IntN(10) == 0
+		fin := later && !restart && fl.f.Proto == 6 && r.IntN(10) == 0
+		st := w.mflowStep(fl, restart, fin)
+		fam := uint8(4)
+		if st.f.V6() {
+			fam = 6
+		}
+		if later && !restart {
+			w.m.Count("mflow_later_packets", 1)
+			if prev >= 0 && prev != i {
+				w.m.Count("mflow_later_packet_after_other_flow", 1)
+				if prevFam != fam {
+					w.m.Count("mflow_later_packet_after_other_family", 1)
+				}
+			}
+			if freshCPU {
+				w.m.Count("mflow_later_packet_on_fresh_cpu", 1)
+			}
+			if st.hook == vk.HookWanEgressL2 && st.f.Proto == 6 {
+				w.m.Count("mflow_later_tcp_wan_egress", 1)
+			}
+		}
+		if !w.step(st) {
+			return
+		}
+		fl.started = true
+		fl.done = fin
+		prev, prevFam = i, fam
+	}
+	w.m.Count("mflow_histories", 1)
+	if w.m.WantSample() {
+		w.m.Sample(map[string]any{"history": append([]string(nil), w.hist...)})
+	}
+}
+
+// exhaustHistory: conn_state_map has no (or nearly no) free slot when the first packets of
+// several flows arrive, and nothing else changes during the history. The statement does not
+// promise delivery when the flow cannot be tracked, so a frame may be dropped instead of
+// following its rule; what it must never do is leave on a path its rule did not decide
+// (pass where the rule says drop / hand to dae, pass with another mark, reach dae without an
+// exact record).
+func (w *c03World) exhaustHistory() {
+	r := w.r
+	w.flows = map[string]*c03Flow{}
+	w.hist = w.hist[:0]
+	w.advance(400e9)
+	if r.IntN(2) == 0 {
+		w.loadPalette()
+	}
+	w.log("RULES:\n%s", w.prog.Text())
+	if r.IntN(2) == 0 {
+		w.asymHealth()
+	}
+	flows := w.mflows(3+r.IntN(3), 6)
+	capacity := uint32(0) // every insertion fails
+	if r.IntN(2) == 0 {
+		capacity = uint32(len(w.ks[0].MapDump("conn_state_map")) + r.IntN(3)) // 0..2 free slots
+	}
+	// one history in three: the hand-off table rejects insertions as well, so a flow without a
+	// conn-state slot has nowhere to leave its record
+	handoffFull := r.IntN(3) == 0
+	for _, k := range w.ks {
+		k.SetMax("conn_state_map", capacity)
+		if handoffFull {
+			k.SetMax("routing_handoff_map", 0)
+		}
+	}
+	defer func() {
+		for _, k := range w.ks {
+			if k.Dead() == nil {
+				k.SetMax("conn_state_map", w.connCap)
+				if handoffFull {
+					k.SetMax("routing_handoff_map", 1<<18)
+				}
+			}
+		}
+	}()
+	w.log("conn_state_map capacity := %d", capacity)
+	if handoffFull {
+		w.log("routing_handoff_map rejects every insertion")
+		w.m.Count("exh_handoff_full_histories", 1)
+	}
+	order := r.Perm(len(flows))
+	for s, steps := 0, len(flows)+1+r.IntN(4); s < steps; s++ {
+		var fl *c03MFlow
+		if s < len(order) {
+			fl = &flows[order[s]]
+		} else {
+			fl = &flows[r.IntN(len(flows))]
+			w.advance([]uint64{0, 3e8, 2e9}[r.IntN(3)])
+		}
+		if r.IntN(4) == 0 {
+			w.setCPU(uint32(r.IntN(3)))
+		}
+		first := !fl.started
+		st := w.mflowStep(fl, false, false)
+		e := w.model(st)
+		w.log("FRAME hook=%s cookie=%d mark=%#x %s   expect=%s (%s) or drop", c03HookName(st.hook), st.cookie, st.mark, st.f.String(), e.class, e.why)
+		res, ok := w.run(st)
+		if !ok {
+			return
+		}
+		w.hist[len(w.hist)-1] += fmt.Sprintf("   got rc=%d redir=%d mark=%#x conn_state_entry=%v", res[0].Rc, res[0].Redirected, res[0].Mark, w.lastConn != nil)
+		if first {
+			fl.started, fl.tracked = true, w.lastConn != nil
+		}
+		w.checkExhausted(st, e, &res[0], first, fl.tracked)
+		if w.failed {
+			return
+		}
+	}
+	w.m.Count("exhaustion_histories", 1)
+	if w.m.WantSample() {
+		w.m.Sample(map[string]any{"history": append([]string(nil), w.hist...)})
+	}
+}
+
+func (w *c03World) checkExhausted(st *c03Step, e c03Expect, res *vk.PktRes, first, tracked bool) {
+	if !e.judge {
+		w.m.Count("exh_frames_not_judged", 1)
+		return
+	}
+	hookName := c03HookName(st.hook)
+	proto := map[uint8]string{6: "tcp", 17: "udp"}[st.f.Proto]
+	if !first && st.f.Proto == 6 && !tracked {
+		// the SYN got no slot: the flow is not tracked, the statement is silent about its later packets
+		w.m.Count("exh_later_packets_of_untracked_tcp_not_judged", 1)
+		return
+	}
+	if first && e.class == "redirect" && w.lastConn == nil && w.lastHandoff == nil {
+		w.m.Count("exh_redirect_decided_and_no_record_left", 1)
+	}
+	if first {
+		w.m.Count("exh_first_packets", 1)
+		if w.lastConn == nil && e.kind != "dns" && e.kind != "dae_own" {
+			w.m.Count("exh_first_packet_got_no_slot", 1)
+			w.m.Count("exh_noslot_"+e.kind, 1)
+			w.m.Count("exh_noslot_"+hookName+"_"+proto, 1)
+			if e.rec != nil && e.rec.Must != 0 {
+				w.m.Count("exh_noslot_must", 1)
+			}
+		}
+	} else {
+		w.m.Count("exh_later_packets_judged", 1)
+	}
+	bad, src := w.eval(st, e, res)
+	outcome := "as_decided"
+	switch {
+	case bad == "":
+		if src != "" {
+			w.m.Count("exh_records_recovered_from_"+src, 1)
+		}
+	case res.Rc == c03ActShot && res.Redirected == 0:
+		outcome = "dropped"
+		if e.class == "ok" {
+			w.m.Count("exh_direct_dropped_recorded", 1) // not judged
+		} else {
+			w.m.Count("exh_failed_closed", 1)
+		}
+	default:
+		shape := "other"
+		switch {
+		case res.Redirected != 0 && strings.HasPrefix(bad, "control plane cannot recover"):
+			shape = "redirected-without-record"
+		case res.Redirected != 0 && e.class == "redirect":
+			shape = "redirected-wrong-record"
+		case res.Redirected != 0:
+			shape = "redirected"
+		case res.Rc == c03ActOK && e.class == "ok":
+			shape = "passed-altered"
+		case res.Rc == c03ActOK:
+			shape = "passed"
+		}
+		w.violation("exhaustion/"+hookName+"/"+proto+"/"+e.kind+"/"+shape,
+			"the flow tables have no free slot: the frame must follow its rule's decision or be dropped, but it left on another path; "+bad)
+		return
+	}
+	w.m.Count("exh_"+outcome, 1)
+	w.m.Distinct(fmt.Sprintf("exh|%s|%s|%s|%s|%v", hookName, c03FrameClass(&st.f), e.kind, outcome, first))
 }
 
 // hostile frames: truncations, header soup, fragments, odd protocols; judged for
@@ -1000,10 +1445,13 @@ func (w *c03World) hostile(n int) {
 func TestVerifC03(t *testing.T) {
 	m := vk.NewMonitor("C03", "", "exploration",
 		"frame histories over one flow per history (TCP SYN/established/FIN/RST, UDP, port 53; IPv4 with options, IPv6 with extension headers; L2 and L3 link types; LAN-ingress, WAN-egress, WAN-originated) interleaved with time jumps around the documented timeouts, rule swaps, learned-domain changes and health-bit flips, plus hostile frames (truncated, fragments, header soup); "+
+			"interleaved histories over 2-4 flows of both families / protocols / hooks (incl. dae's own) with health bits that differ per (protocol, family), packets moving between four simulated CPUs (per-CPU scratch maps keep one copy per CPU), every frame judged against its own flow's decision; "+
+			"exhaustion histories: conn_state_map has 0-2 free slots (or rejects every insertion) when the first packets of 3-5 flows covering every rule outcome arrive: a frame follows its rule or is dropped, never leaves on another path; "+
 			"tproxy.c runs natively under ASan+UBSan in three children with the fast / slow header parser forced; oracle = reference flow table written from the statement + record decoded with dae's Go structs; "+
 			"distinct = (hook, frame class, expected verdict class, reason)")
 	m.SetFloor(150)
-	m.Assume("helper semantics scripted by the kernsim shim (sk lookups return no socket; redirect records its target; one CPU)",
+	m.Assume("helper semantics scripted by the kernsim shim (sk lookups return no socket; redirect records its target; programs run one at a time on one of four simulated CPUs)",
+		"under conn-state exhaustion the statement is read as: the frame follows its rule's decision or is dropped (drops of direct traffic are counted, not judged); later packets of a TCP flow whose SYN got no slot are not judged",
 		"first-packet decisions come from verifkit.RefRoute; record recovery mirrors RetrieveRoutingResult on the map bytes using the real key constructor and Go structs",
 		"time gaps are chosen away from the documented 120 s / 10 s timeouts; untracked mid-flow packets, forwarded traffic on the WAN hook and malformed frames carry no verdict expectation")
 	r := vk.NewRand(0xC03)
@@ -1040,26 +1488,41 @@ func TestVerifC03(t *testing.T) {
 		// every 10th program runs under conn_state_map pressure (2 entries): the fail-closed
 		// branches are reached; only parser-path agreement and sanitizer reports are judged there.
 		w.pressure = i%10 == 9
+		w.connCap = 1 << 18
+		if w.pressure {
+			w.connCap = 2
+		}
+		w.cpu, w.cpuUsed = 0, [4]bool{}
 		for _, k := range w.ks {
-			if w.pressure {
-				k.SetMax("conn_state_map", 2)
-			} else {
-				k.SetMax("conn_state_map", 1<<18)
-			}
+			k.SetMax("conn_state_map", w.connCap)
 		}
 		if !w.loadRules(gen.Gen()) {
 			continue
 		}
 		m.Count("programs", 1)
 		for j := 0; j < perProg && !w.failed; j++ {
-			w.history()
+			switch {
+			case j%5 == 2:
+				w.mixHistory()
+			case j%10 == 9 && !w.pressure:
+				w.exhaustHistory()
+			default:
+				w.history()
+			}
 			m.Count("histories", 1)
 		}
 		if !w.failed {
-			w.hostile(60)
+			w.hostile(54)
 		}
 	}
 	m.Require("verdict_ok", "verdict_shot", "verdict_redirect", "records_recovered_from_conn_state", "records_recovered_from_handoff",
-		"hostile_frames", "wan_origin_reply_probes", "tcp_restart_on_syn", "udp_redecided_after_idle", "rule_swaps_midflow", "domain_changes_midflow", "alive_flips", "dae_own_pid_flows", "frames_under_map_pressure", "overflow_events_under_pressure", "tcp_tuple_reused_while_active", "dae_own_on_tracked_tuple")
+		"hostile_frames", "wan_origin_reply_probes", "tcp_restart_on_syn", "udp_redecided_after_idle", "rule_swaps_midflow", "domain_changes_midflow", "alive_flips", "dae_own_pid_flows", "frames_under_map_pressure", "overflow_events_under_pressure", "tcp_tuple_reused_while_active", "dae_own_on_tracked_tuple", "opener_swapped_after_expiry",
+		// interleaved multi-flow histories
+		"mflow_histories", "asymmetric_health_setups", "mflow_later_packet_after_other_flow", "mflow_later_packet_after_other_family",
+		"mflow_later_packet_on_fresh_cpu", "mflow_later_tcp_wan_egress", "mflow_dae_own_flows", "palette_programs",
+		// conn-state exhaustion at first-packet time, per rule outcome / hook / protocol
+		"exhaustion_histories", "exh_handoff_full_histories", "exh_redirect_decided_and_no_record_left", "exh_first_packet_got_no_slot", "exh_as_decided", "exh_failed_closed", "exh_later_packets_judged",
+		"exh_noslot_plain_direct", "exh_noslot_direct_mark", "exh_noslot_group", "exh_noslot_group_down", "exh_noslot_block", "exh_noslot_must",
+		"exh_noslot_wan_egress_tcp", "exh_noslot_wan_egress_udp", "exh_noslot_lan_ingress_tcp", "exh_noslot_lan_ingress_udp")
 	m.Done(t)
 }
